@@ -219,6 +219,12 @@ func archive(workerID string, seed *models.Item) {
 			continue
 		}
 
+		// A stop was requested: do not start new captures, only wait for the ones in flight
+		if globalArchiver.ctx.Err() != nil {
+			logger.Debug("not starting new captures due to stop", "seed_id", seed.GetShortID())
+			break
+		}
+
 		guard <- struct{}{}
 
 		wg.Add(1)
